@@ -30,6 +30,8 @@ def escStr (s : String) : String :=
     if c = '"' then acc ++ "\\\""
     else if c = '\\' then acc ++ "\\\\"
     else if c = '\n' then acc ++ "\\n"
+    else if c.toNat = 8 then acc ++ "\\b"
+    else if c.toNat = 12 then acc ++ "\\f"
     else if c = '\r' then acc ++ "\\r"
     else if c = '\t' then acc ++ "\\t"
     else if c.toNat < 0x20 then acc ++ "\\u" ++ hex4 c.toNat
